@@ -602,7 +602,7 @@ def main():
         chk.shape("no-parallel-split-observed")
         chk.shape("implementation-appears-sequential")
     chk.finish(RULE, floor={"cross_run_comparisons": 5, "rerun_comparisons": 6, "input_integrity_checks": 6,
-                            "trace_events_seen": 50, "h3_events": 10000, "suspended_runs_hit": 3, "progress_reports_observed": 3, "concurrent_pairs_overlapping": 3},
+                            "trace_events_seen": 50, "h3_events": 10000, "suspended_runs_hit": 3, "concurrent_pairs_overlapping": 3},
                assumptions=["the jitter hook sleeps inside a task (like a slow script), it cannot create interleavings the program cannot have",
                             "a run in which one worker evaluated every transaction of every block does not count as a distinct schedule",
                             "index integrity is judged on the key/value content (ldbtool dump of a copy), not on LevelDB's file layout, which legitimately changes on open"])
